@@ -209,6 +209,12 @@ func (r *Reader) Read(a []byte) (n int, err error) {
 		r.request(-1, -1)
 	}
 
+	if n == 0 && err == nil && len(a) > 0 {
+		// the piece is gone (evicted, or the torrent deleted);
+		// don't trust the cached request, ask again next time
+		r.requestedIndex = -1
+	}
+
 	r.position += int64(n)
 	return
 }
